@@ -8,7 +8,10 @@
 //	    fake grpcadapter.ClientPool/ClientConn/ClientStream speaking the reflection protocol and
 //	    logs, in one total order, hook arrivals, streams opened, watcher callbacks and Close.
 //	    contract = <valid>/<sig>/<svc>,<svc>…/<file>:<bytes>,…            (hex without the x prefix)
-//	    plan     = <attempt v1>/<attempt v1alpha>/<nA>.<nB>.<nC>.<nD>.<nE>/<close point or ->
+//	    plan     = <attempt v1>/<attempt v1alpha>/<nA>.<nB>.<nC>.<nD>.<nE>/<close point or ->[/<split>,<split>…]
+//	    split    = h<point>: a ResolveNow call is started on its own goroutine and held at the hook
+//	               resolver.resolveNow.loaded (pointer loaded, once-func not yet called);
+//	               r<point>: every held call is released and runs to completion
 //	    attempt  = <mode><contract id>[@<pos>]   mode S|U|A|I|T|E|O|G, pos o|ls|lr|le|lw|ss<k>|sr<k>|se<k>|fs<k>|fr<k>|fe<k>|fm<k>
 //	    nA..nE   = number of ResolveNow calls made at: A the beforeResolve hook, B inside the poll
 //	               (first pool.Get), C the beforeSelect hook, D once the poller is parked in the
@@ -87,7 +90,9 @@ type attempt struct {
 type plan struct {
 	att     [2]attempt
 	n       [5]int
-	closeAt byte // 'A'..'E' or '-'
+	closeAt byte   // 'A'..'E' or '-'
+	holdAt  []byte // points at which one ResolveNow is started and held after its pointer load
+	relAt   []byte // points at which all held calls are released
 }
 
 func unhexPlain(s string) []byte {
@@ -143,10 +148,22 @@ func parseAttempt(s string) attempt {
 
 func parsePlan(s string) plan {
 	p := strings.Split(s, "/")
-	if len(p) != 4 {
-		panic("plan needs 4 parts: " + s)
+	if len(p) != 4 && len(p) != 5 {
+		panic("plan needs 4 or 5 parts: " + s)
 	}
 	pl := plan{closeAt: p[3][0]}
+	if len(p) == 5 {
+		for _, h := range strings.Split(p[4], ",") {
+			if len(h) != 2 {
+				panic("bad split action " + h)
+			}
+			if h[0] == 'h' {
+				pl.holdAt = append(pl.holdAt, h[1])
+			} else {
+				pl.relAt = append(pl.relAt, h[1])
+			}
+		}
+	}
 	pl.att[0] = parseAttempt(p[0])
 	pl.att[1] = parseAttempt(p[1])
 	ns := strings.Split(p[2], ".")
@@ -233,6 +250,11 @@ type exec struct {
 
 	closeSpawned atomic.Bool
 	closed       atomic.Bool // Close has returned
+
+	holdNext atomic.Bool     // the next arrival at resolver.resolveNow.loaded is to be held
+	loaded   chan struct{}   // the held call has loaded the pointer
+	release  []chan struct{} // one per held call
+	finished []chan struct{} // closed when the held call has returned
 }
 
 var targetCounter atomic.Int64
@@ -253,14 +275,39 @@ func (x *exec) curPlan() plan {
 	return plan{att: [2]attempt{{mode: 'S', cid: cid}, {mode: 'S', cid: cid}}, closeAt: '-'}
 }
 
-// doActions performs the scripted ResolveNow calls and the Close of one point.
+// doActions performs the scripted actions of one point, in this order: held calls are started (pointer
+// load only), whole ResolveNow calls are made, held calls are released, Close is issued.
 func (x *exec) doActions(point byte) {
 	if x.closed.Load() {
 		return
 	}
 	pl := x.curPlan()
+	for _, h := range pl.holdAt {
+		if h != point {
+			continue
+		}
+		rel, fin := make(chan struct{}), make(chan struct{})
+		x.release = append(x.release, rel)
+		x.finished = append(x.finished, fin)
+		x.holdNext.Store(true)
+		go func() {
+			defer close(fin)
+			x.res.ResolveNow() // blocks in the hook until released
+		}()
+		<-x.loaded
+	}
 	for i := 0; i < pl.n[point-'A']; i++ {
 		x.res.ResolveNow()
+	}
+	for _, h := range pl.relAt {
+		if h != point {
+			continue
+		}
+		for i := range x.release {
+			close(x.release[i])
+			<-x.finished[i]
+		}
+		x.release, x.finished = nil, nil
 	}
 	if pl.closeAt == point {
 		x.spawnClose()
@@ -331,6 +378,14 @@ func (x *exec) hook(name string, args ...string) {
 	if len(args) == 0 || args[0] != x.target {
 		return
 	}
+	if name == "resolver.resolveNow.loaded" {
+		if x.holdNext.CompareAndSwap(true, false) {
+			rel := x.release[len(x.release)-1]
+			x.loaded <- struct{}{}
+			<-rel
+		}
+		return
+	}
 	<-x.built
 	switch name {
 	case "resolver.beforeResolve":
@@ -385,6 +440,7 @@ func execHist(f []string) string {
 		os:      f[1] == "os1",
 		built:   make(chan struct{}),
 		kick:    make(chan struct{}, 1),
+		loaded:  make(chan struct{}),
 		pollIdx: -1,
 	}
 	rt, _ := strconv.Atoi(strings.TrimPrefix(f[2], "rt"))
@@ -414,6 +470,10 @@ func execHist(f []string) string {
 	close(x.built)
 
 	x.drive()
+	for i := range x.release {
+		close(x.release[i])
+		<-x.finished[i]
+	}
 
 	x.mu.Lock()
 	defer x.mu.Unlock()
@@ -491,15 +551,16 @@ func (x *exec) drive() {
 		case isK:
 			handledPark = s2
 			lastProgress = time.Now()
-			pl := x.curPlan()
 			x.doActions('D')
 			nowakeAt = time.Time{}
-			if pl.n[3] > 0 {
-				nowakeAt = time.Now().Add(500 * time.Millisecond)
-			} else if !x.closeSpawned.Load() {
+			// close() readies a parked receiver synchronously, so a poller that is still parked after
+			// the D actions (all of them have returned) will not be woken by them
+			if !x.closeSpawned.Load() && x.pollerStatus() == "parked" && x.wokenSeq.Load() == w2 {
 				// quiescent: nothing will wake the poller; end of the run
 				x.logf("Z")
 				x.spawnClose()
+			} else if !x.closeSpawned.Load() {
+				nowakeAt = time.Now().Add(2 * time.Second)
 			}
 		case st == "gone" && !x.closeSpawned.Load():
 			x.logf("!poller-gone")
